@@ -346,18 +346,43 @@ def run(ctx):
         raise Inconclusive('the default (v1) output port is not compiled in this feature set')
     ctx.bounds.update({'stream': 'up to %d receive results per run (publication, Lagged(n) with symbolic n >= 1, Closed, Ok(None)), one Pending poll per receive; the subscription position is symbolic' % MAX_ITEMS,
                        'subscribers': 'one forwarding task at a time: tasks share nothing but the broadcast channel (each has its own receiver, converter and target), so independence of subscribers is structural',
-                       'outside': 'the v2 port (feature output-port-v2, dispatch_batch); tokio broadcast itself (retention, Lagged accounting); end-to-end order through the subscriber mailbox (C02)'})
+                       'outside': 'the v2 port beyond one batch of its fan-out task (see bounds.v2); tokio broadcast itself (retention, Lagged accounting); end-to-end order through the subscriber mailbox (C02)'})
     ctx.assumptions += ['tokio broadcast receiver contract: publications are received in publication order, each at most once; Lagged(n) skips n >= 1 positions forward; Closed once all senders are gone',
                         'the converter is an opaque pure function returning Some(converted) or None; ActorRef::cast succeeds or fails arbitrarily']
     check_forwarder(ctx, prog)
     check_send(ctx, prog)
     check_subscribe(ctx, prog)
+    # the v2 port (feature output-port-v2): its own MIR dump, its own native build
+    import C16_v2
+    import C16_v2_replay
+    try:
+        C16_v2.check(ctx, ctx.tier)
+    except Unmodelled as e:
+        ctx.inconclusive.append('C16 v2 slice: Unmodelled: %s' % str(e)[:300])
+    try:
+        bad, n = C16_v2_replay.battery()
+        ctx.translator_validated += n
+        ctx.extra['v2_native_battery'] = {'runs': n, 'violations': bad[:5]}
+        if bad:
+            rec = {'name': 'v2.native_battery', 'group': 'C16.v2', 'solver_s': 0.0, 'status': 'cex'}
+            ctx.obligations.append(rec)
+            ctx.handle_cex(rec['name'], 'C16.v2.native', None, lambda _m: {'replayed': True, 'detail': 'real v2 port on fixed batches: %s' % bad[:3], 'replay': {'which': 'v2_battery'}}, rec)
+    except RuntimeError as e:
+        ctx.inconclusive.append('v2 native battery unavailable: %s' % str(e)[-300:])
 
 
 def replay_file(path):
     import json
     import C16_replay
     d = json.load(open(path))
+    if d['replay'].get('which') in ('v2', 'v2_battery'):
+        import C16_v2_replay
+        rp = d['replay']
+        bad, _n = C16_v2_replay.battery()
+        if rp['which'] == 'v2':
+            bad += C16_v2_replay.evaluate([(i + 1, 's%d' % i) for i in range(rp['n_subs'])], C16_v2_replay.items_of(rp['shape']), rp['allow_dup'], [tuple(x) for x in rp['refuse']])
+        print('native v2 port:', bad)
+        return 1 if bad else 0
     r = C16_replay.replay(d['replay']['which'])
     print(r['detail'])
     return 1 if r['replayed'] else 0
